@@ -26,10 +26,14 @@ def cfg(mode, tp="MCTargets", sp="MCSenders", ty="MCTypes", dp="MCData", maxb=2,
 PLAN = {
     "C15": {
         "quick": [("rt_len2_full", dict(mode="roundtrip", maxb=2)),
-                  ("rt_len3_small", dict(mode="roundtrip", maxb=3, tp="MCTargets2", sp="MCSenders1", ty="MCTypes1", dp="MCData1"))],
+                  ("rt_len3_small", dict(mode="roundtrip", maxb=3, tp="MCTargets2", sp="MCSenders1", ty="MCTypes1", dp="MCData1")),
+                  ("rt_len3_registered_type", dict(mode="roundtrip", maxb=3, tp="MCTargets2", sp="MCSenders1", ty="MCTypesReg", dp="MCData")),
+                  ("rt_len2_big_payloads", dict(mode="roundtrip", maxb=2, tp="MCTargets2", sp="MCSenders1", ty="MCTypes1", dp="MCDataBig"))],
         "thorough": [("rt_len2_full", dict(mode="roundtrip", maxb=2)),
                      ("rt_len3_collide", dict(mode="roundtrip", maxb=3, sp="MCSendersC", dp="MCData1")),
-                     ("rt_len4_small", dict(mode="roundtrip", maxb=4, tp="MCTargetsC", sp="MCSenders1", ty="MCTypes1", dp="MCData1"))],
+                     ("rt_len4_small", dict(mode="roundtrip", maxb=4, tp="MCTargetsC", sp="MCSenders1", ty="MCTypes1", dp="MCData1")),
+                     ("rt_len3_registered_type", dict(mode="roundtrip", maxb=3, tp="MCTargets2", sp="MCSenders1", ty="MCTypesReg", dp="MCData")),
+                     ("rt_len3_big_payloads", dict(mode="roundtrip", maxb=3, tp="MCTargets2", sp="MCSenders1", ty="MCTypes1", dp="MCDataBig"))],
     },
     "C16": {
         "quick": [("hostile_1msg_full", dict(mode="hostile", hidx="HIdxFull", hmax=1)),
